@@ -278,7 +278,7 @@ func (s *Store) compact(footer *Footer, partialCompactStart int,
 		frefCompact, fileCompact, err = s.startFileLOCKED()
 		s.m.Unlock()
 	} else {
-		frefCompact, fileCompact, err = s.startOrReuseFile()
+		frefCompact, fileCompact, _, err = s.startOrReuseFile()
 	}
 	if err != nil {
 		return err
